@@ -12,155 +12,189 @@ Record rd_state := {
   r_png : image; r_baseline : image;
   r_same : bool;                 (* Arc::ptr_eq(&png, &baseline) *)
   r_added : bool;                (* evaluation_added *)
+  r_indexed : option image;      (* the `indexed` variable *)
   r_events : list rd_event       (* reversed *)
 }.
 
 Definition is_cheap (o : options) : bool :=
   match deflate o with Libdeflater c => (c <? 12) && fast_evaluation o | _ => false end.
 
+Definition log_site (st : rd_state) (s : site) (p : bool) : rd_state :=
+  {| r_png := r_png st; r_baseline := r_baseline st; r_same := r_same st; r_added := r_added st;
+     r_indexed := r_indexed st; r_events := EvSite s p :: r_events st |}.
+
 (* `flag && !deadline.passed()`: the clock is consulted only when flag holds *)
 Definition guard (e : env) (flag : bool) (s : site) (st : rd_state) : bool * rd_state :=
-  if flag then
-    let p := dl e s in
-    (negb p, {| r_png := r_png st; r_baseline := r_baseline st; r_same := r_same st; r_added := r_added st;
-                r_events := EvSite s p :: r_events st |})
-  else (false, st).
+  if flag then let p := dl e s in (negb p, log_site st s p) else (false, st).
 
 Definition set_png (st : rd_state) (p : image) (same : bool) : rd_state :=
-  {| r_png := p; r_baseline := r_baseline st; r_same := same; r_added := r_added st; r_events := r_events st |}.
+  {| r_png := p; r_baseline := r_baseline st; r_same := same; r_added := r_added st;
+     r_indexed := r_indexed st; r_events := r_events st |}.
 Definition set_baseline (st : rd_state) (b : image) (same : bool) : rd_state :=
-  {| r_png := r_png st; r_baseline := b; r_same := same; r_added := r_added st; r_events := r_events st |}.
+  {| r_png := r_png st; r_baseline := b; r_same := same; r_added := r_added st;
+     r_indexed := r_indexed st; r_events := r_events st |}.
+Definition set_indexed (st : rd_state) (i : option image) : rd_state :=
+  {| r_png := r_png st; r_baseline := r_baseline st; r_same := r_same st; r_added := r_added st;
+     r_indexed := i; r_events := r_events st |}.
 Definition submit (st : rd_state) (img : image) (desc : Z) : rd_state :=
   {| r_png := r_png st; r_baseline := r_baseline st; r_same := r_same st; r_added := true;
-     r_events := EvSubmit img desc :: r_events st |}.
+     r_indexed := r_indexed st; r_events := EvSubmit img desc :: r_events st |}.
 
 Definition palette_of (img : image) : option (list rgba8) :=
   match ctype (hdr img) with Indexed p => Some p | _ => None end.
 Definition pal_eqb := list_eqb rgba8_eqb.
 
-(* pub(crate) fn perform_reductions(png, opts, deadline, eval) -> baseline, with the event log *)
-Definition perform_reductions (e : env) (o : options) (png0 : image) : res (image * list rd_event) :=
-  let cheap := is_cheap o in
-  (* interlacing *)
+(* ---- the blocks of perform_reductions, in program order ---- *)
+
+(* Interlacing must be processed first *)
+Definition s_interlace (o : options) (png0 : image) : res rd_state :=
   do png <- match interlace o with
             | Some il => do r <- change_interlacing png0 il; Ok (match r with Some x => x | None => png0 end)
             | None => Ok png0
             end;
-  let st := {| r_png := png; r_baseline := png; r_same := true; r_added := false; r_events := [] |} in
-  (* alpha cleaning *)
+  Ok {| r_png := png; r_baseline := png; r_same := true; r_added := false; r_indexed := None; r_events := [] |}.
+
+Definition s_clean_alpha (e : env) (o : options) (st : rd_state) : res rd_state :=
   let '(go, st) := guard e (optimize_alpha o) SCleanAlpha st in
-  let st := if go then match cleaned_alpha_channel (r_png st) with Some x => set_png st x true | None => st end else st in
-  (* 16 -> 8 *)
+  Ok (if go then match cleaned_alpha_channel (r_png st) with Some x => set_png st x true | None => st end else st).
+
+Definition s_16_to_8 (e : env) (o : options) (st : rd_state) : res rd_state :=
   let '(go, st) := guard e (bit_depth_reduction o) S16to8 st in
-  let st := if go then match reduced_bit_depth_16_to_8 (r_png st) (scale_16 o) with Some x => set_png st x true | None => st end else st in
-  (* rgb -> gray *)
+  Ok (if go then match reduced_bit_depth_16_to_8 (r_png st) (scale_16 o) with Some x => set_png st x true | None => st end else st).
+
+Definition s_rgb_gray (e : env) (o : options) (st : rd_state) : res rd_state :=
   let '(go, st) := guard e (color_type_reduction o && grayscale_reduction o) SRgbGray st in
-  let st := if go then match reduced_rgb_to_grayscale (r_png st) with Some x => set_png st x true | None => st end else st in
-  (* expand to 8 *)
+  Ok (if go then match reduced_rgb_to_grayscale (r_png st) with Some x => set_png st x true | None => st end else st).
+
+Definition s_expand (e : env) (o : options) (st : rd_state) : res rd_state :=
   let '(go, st) := guard e (bit_depth_reduction o) SExpand st in
-  do st <- (if go then do r <- expanded_bit_depth_to_8 (r_png st);
-                        Ok (match r with Some x => set_png st x true | None => st end)
-            else Ok st);
-  (* baseline = png *)
-  let st := set_baseline st (r_png st) true in
-  (* palette *)
+  if go then do r <- expanded_bit_depth_to_8 (r_png st);
+             Ok (match r with Some x => set_png st x true | None => st end)
+  else Ok st.
+
+(* "Now retain the current png for the evaluator baseline" *)
+Definition s_baseline (st : rd_state) : res rd_state := Ok (set_baseline st (r_png st) true).
+
+Definition s_palette (e : env) (o : options) (st : rd_state) : res rd_state :=
   let '(go, st) := guard e (palette_reduction o) SPalette st in
-  do st <- (if go then
-              let st := match reduced_palette (r_png st) (optimize_alpha o) with
-                        | Some x => if list_eqb Z.eqb (data x) (data (r_baseline st))
-                                    then set_baseline (set_png st x true) x true
-                                    else set_png st x false
-                        | None => st
-                        end in
-              do r <- sorted_palette (r_png st);
-              let st := match r with Some x => set_png st x false | None => st end in
-              Ok (if negb (r_same st) then submit st (r_png st) 1 else st)
-            else Ok st);
-  (* alpha removal *)
+  if go then
+    let st := match reduced_palette (r_png st) (optimize_alpha o) with
+              | Some x => if list_eqb Z.eqb (data x) (data (r_baseline st))
+                          then set_baseline (set_png st x true) x true
+                          else set_png st x false
+              | None => st
+              end in
+    do r <- sorted_palette (r_png st);
+    let st := match r with Some x => set_png st x false | None => st end in
+    Ok (if negb (r_same st) then submit st (r_png st) 1 else st)
+  else Ok st.
+
+Definition s_alpha (e : env) (o : options) (st : rd_state) : res rd_state :=
   let '(go, st) := guard e (color_type_reduction o) SAlphaRed st in
-  do st <- (if go then
-              match reduced_alpha_channel (r_png st) (optimize_alpha o) with
-              | Some x =>
-                  let diff := lenZ (data (r_baseline st)) - lenZ (data x) in
-                  if has_trns (ctype (hdr x)) then
-                    (if diff <? 0 then Panic POverflow
-                     else if diff <=? 1000 then Ok (submit (set_png st x false) x 0)
-                     else Ok (set_baseline (set_png st x true) x true))
-                  else Ok (set_baseline (set_png st x true) x true)
-              | None => Ok st
-              end
-            else Ok st);
-  (* indexed -> channels *)
-  let '(go, st) := guard e (negb cheap && color_type_reduction o) SToChannels st in
-  let st := if go then match indexed_to_channels (r_png st) (grayscale_reduction o) (optimize_alpha o) with
-                       | Some x => submit st x 0 | None => st end else st in
-  (* -> indexed *)
+  if go then
+    match reduced_alpha_channel (r_png st) (optimize_alpha o) with
+    | Some x =>
+        let diff := lenZ (data (r_baseline st)) - lenZ (data x) in
+        if has_trns (ctype (hdr x)) then
+          (if diff <? 0 then Panic POverflow
+           else if diff <=? 1000 then Ok (submit (set_png st x false) x 0)
+           else Ok (set_baseline (set_png st x true) x true))
+        else Ok (set_baseline (set_png st x true) x true)
+    | None => Ok st
+    end
+  else Ok st.
+
+Definition s_to_channels (e : env) (o : options) (st : rd_state) : res rd_state :=
+  let '(go, st) := guard e (negb (is_cheap o) && color_type_reduction o) SToChannels st in
+  Ok (if go then match indexed_to_channels (r_png st) (grayscale_reduction o) (optimize_alpha o) with
+                 | Some x => submit st x 0 | None => st end else st).
+
+Definition s_to_indexed (e : env) (o : options) (st : rd_state) : res rd_state :=
   let '(go, st) := guard e (color_type_reduction o) SToIndexed st in
-  do r <- (if go then
-             match reduced_to_indexed (r_png st) (grayscale_reduction o) with
-             | Some red =>
-                 do sp <- sorted_palette red;
-                 let new := match sp with Some x => x | None => red end in
-                 let diff := lenZ (data (r_png st)) - lenZ (data new) in
-                 if diff <? 0 then Panic POverflow
-                 else if diff <=? INDEXED_MAX_DIFF then Ok (submit st new 1, Some new)
-                 else Ok (set_baseline st new false, Some new)
-             | None => Ok (st, None)
-             end
-           else Ok (st, None));
-  let '(st, indexed) := r in
-  (* additional palette sorting *)
-  do st <- (if negb cheap && palette_reduction o then
-              let palettes := match palette_of (r_baseline st) with Some p => [p] | None => [] end in
-              let input := match indexed with Some i => i | None => r_png st end in
-              let '(go, st) := guard e true SBattiato st in
-              do r1 <- (if go then
-                          do r <- sorted_palette_battiato input;
-                          match r with
-                          | Some red =>
-                              match palette_of red with
-                              | Some p => if existsb (pal_eqb p) palettes then Ok (st, palettes)
-                                          else Ok (submit st red 2, palettes ++ [p])
-                              | None => Ok (st, palettes)
-                              end
-                          | None => Ok (st, palettes)
-                          end
-                        else Ok (st, palettes));
-              let '(st, palettes) := r1 in
-              let '(go, st) := guard e true SMzeng st in
-              if go then
-                do r <- sorted_palette_mzeng input;
+  if go then
+    match reduced_to_indexed (r_png st) (grayscale_reduction o) with
+    | Some red =>
+        do sp <- sorted_palette red;
+        let new := match sp with Some x => x | None => red end in
+        let diff := lenZ (data (r_png st)) - lenZ (data new) in
+        if diff <? 0 then Panic POverflow
+        else if diff <=? INDEXED_MAX_DIFF then Ok (set_indexed (submit st new 1) (Some new))
+        else Ok (set_indexed (set_baseline st new false) (Some new))
+    | None => Ok st
+    end
+  else Ok st.
+
+Definition s_sorts (e : env) (o : options) (st : rd_state) : res rd_state :=
+  if negb (is_cheap o) && palette_reduction o then
+    let palettes := match palette_of (r_baseline st) with Some p => [p] | None => [] end in
+    let input := match r_indexed st with Some i => i | None => r_png st end in
+    let '(go, st) := guard e true SBattiato st in
+    do r1 <- (if go then
+                do r <- sorted_palette_battiato input;
                 match r with
                 | Some red =>
                     match palette_of red with
-                    | Some p => if existsb (pal_eqb p) palettes then Ok st else Ok (submit st red 3)
+                    | Some p => if existsb (pal_eqb p) palettes then Ok (st, palettes)
+                                else Ok (submit st red 2, palettes ++ [p])
+                    | None => Ok (st, palettes)
+                    end
+                | None => Ok (st, palettes)
+                end
+              else Ok (st, palettes));
+    let '(st, palettes) := r1 in
+    let '(go, st) := guard e true SMzeng st in
+    if go then
+      do r <- sorted_palette_mzeng input;
+      match r with
+      | Some red =>
+          match palette_of red with
+          | Some p => if existsb (pal_eqb p) palettes then Ok st else Ok (submit st red 3)
+          | None => Ok st
+          end
+      | None => Ok st
+      end
+    else Ok st
+  else Ok st.
+
+Definition s_depth (e : env) (o : options) (st : rd_state) : res rd_state :=
+  let '(go, st) := guard e (bit_depth_reduction o) SDepthA st in
+  if go then
+    do reduced <- reduced_bit_depth_8_or_less (r_png st);
+    let '(go2, st) := guard e (negb (is_cheap o) || match reduced with None => true | _ => false end) SDepthB st in
+    do st <- (if go2 then
+                match r_indexed st with
+                | Some ix =>
+                    do ri <- reduced_bit_depth_8_or_less ix;
+                    match ri with
+                    | Some x =>
+                        if match reduced with
+                           | Some r0 => negb (list_eqb Z.eqb (data r0) (data x))
+                           | None => true end
+                        then Ok (submit st x 0) else Ok st
                     | None => Ok st
                     end
                 | None => Ok st
                 end
-              else Ok st
-            else Ok st);
-  (* lower bit depth *)
-  let '(go, st) := guard e (bit_depth_reduction o) SDepthA st in
-  do st <- (if go then
-              do reduced <- reduced_bit_depth_8_or_less (r_png st);
-              let '(go2, st) := guard e (negb cheap || match reduced with None => true | _ => false end) SDepthB st in
-              do st <- (if go2 then
-                          match indexed with
-                          | Some ix =>
-                              do ri <- reduced_bit_depth_8_or_less ix;
-                              match ri with
-                              | Some x =>
-                                  if match reduced with
-                                     | Some r0 => negb (list_eqb Z.eqb (data r0) (data x))
-                                     | None => true end
-                                  then Ok (submit st x 0) else Ok st
-                              | None => Ok st
-                              end
-                          | None => Ok st
-                          end
-                        else Ok st);
-              Ok (match reduced with Some r0 => submit st r0 0 | None => st end)
-            else Ok st);
-  let st := if r_added st then submit st (r_baseline st) 0 else st in
+              else Ok st);
+    Ok (match reduced with Some r0 => submit st r0 0 | None => st end)
+  else Ok st.
+
+Definition s_final (st : rd_state) : res rd_state :=
+  Ok (if r_added st then submit st (r_baseline st) 0 else st).
+
+(* the blocks after interlacing, composed *)
+Definition reduction_steps (e : env) (o : options) : list (rd_state -> res rd_state) :=
+  [s_clean_alpha e o; s_16_to_8 e o; s_rgb_gray e o; s_expand e o; s_baseline;
+   s_palette e o; s_alpha e o; s_to_channels e o; s_to_indexed e o; s_sorts e o; s_depth e o; s_final].
+
+Fixpoint run_steps (steps : list (rd_state -> res rd_state)) (st : rd_state) : res rd_state :=
+  match steps with
+  | [] => Ok st
+  | f :: t => do st' <- f st; run_steps t st'
+  end.
+
+(* pub(crate) fn perform_reductions(png, opts, deadline, eval) -> baseline, with the event log *)
+Definition perform_reductions (e : env) (o : options) (png0 : image) : res (image * list rd_event) :=
+  do st0 <- s_interlace o png0;
+  do st <- run_steps (reduction_steps e o) st0;
   Ok (r_baseline st, rev (r_events st)).
